@@ -91,7 +91,8 @@ class C01(UtfCheck):
             for fi, fn in enumerate(main + others):
                 for lo in range(0, 0x110000, step):
                     hi = min(lo + step, 0x110000)
-                    ms = MODES if fn in main else (MODES[(fi + lo // step) % 3],)
+                    # the six main pairs: check_validity over every scalar, the other two modes on alternating blocks
+                    ms = ('cv', MODES[(lo // step) % 2]) if fn in main else (MODES[(fi + lo // step) % 3],)
                     for mode in ms:
                         yield enum_case('scalar', fn, 'ptr', mode, '_', lo, hi)
             for fn in STR_TO_FNS[:4]:
